@@ -335,6 +335,16 @@ def call_builtin(ex, name: str, args, kwargs, st: State, node) -> Term:
             pass
         ex.emit("extcall", node, st, name="int.from_bytes", recv=None, args=tuple(A), kwargs=dict(kwargs), result=res, pure=True)
         return res
+    if name == "bytes.fromhex" and n == 1 and not kwargs:
+        try:
+            v = ex.concrete(A[0], st)
+            try:
+                return C(bytes.fromhex(v))
+            except (ValueError, TypeError) as e:
+                ex.emit("extcall", node, st, name=name, recv=None, args=tuple(A), kwargs={}, result=None, pure=True, certain_fail=type(e).__name__)
+                return sym("failed_fromhex")
+        except NotConst:
+            pass
     if name in ("bytes.fromhex", "bytearray.fromhex", "dict.fromkeys", "str.join", "bytes.join", "int.to_bytes", "str.format", "object.__new__", "object.__init__", "object.__setattr__"):
         res = mk("call", mk("builtin", name), tuple(A), tuple(sorted(kwargs.items())), 0)
         ex.emit("extcall", node, st, name=name, recv=None, args=tuple(A), kwargs=dict(kwargs), result=res, pure=True)
